@@ -526,13 +526,25 @@ Section Obj.
 
   Definition ExtA (o : objrecv) (c : ctx) (x : bool * objrecv * ctx) : Prop := Ext o c (snd (fst x)) (snd x).
 
+  (* D48: completing an empty object right after its writer was opened *)
+  Lemma d48_step_ext o c : Pre o c -> Ext o c (fst (d48_step o c)) (snd (d48_step o c)).
+  Proof.
+    intros P. unfold d48_step.
+    destruct (r_tlen o) as [[|l]|]; try (apply Ext_refl, P).
+    destruct (r_oti o); try (apply Ext_refl, P).
+    destruct (r_state o) eqn:Es; try (apply Ext_refl, P).
+    destruct (r_writer o) eqn:Ew; try (apply Ext_refl, P).
+    apply Ext_complete; [exact P|]. apply Quiet_recv; [exact (proj1 P)|exact Es].
+  Qed.
+
   Theorem or_attach_ext id files ioti o c : Pre o c -> ExtA o c (or_attach E id files ioti o c).
   Proof.
     intros P. unfold or_attach. destruct (r_fdt_id o); [apply Ext_refl, P|].
     destruct (find _ files) as [f|]; [|apply Ext_refl, P].
     assert (G0 : forall o1, Ext o c o1 c ->
       ExtA o c (let o2 := init_partition o1 in
-                let (o3, c3) := init_writer E o2 c in
+                let (o3a, c3a) := init_writer E o2 c in
+                let (o3, c3) := d48_step o3a c3a in
                 let (o4, c4) := push_from_cache E o3 c3 in
                 let '(o5, c5) := match write_blocks E (S (length (r_blocks o4))) 0 o4 c4 with
                                  | (ROk x, cx) => (x, cx)
@@ -545,9 +557,12 @@ Section Obj.
          (apply Ext_upd; [exact P|reflexivity|reflexivity|exact (proj1 P)|reflexivity|reflexivity]). }
     intros o1 K1. cbv zeta. unfold ExtA.
     pose proof (init_partition_ext o1 c (e_pre _ _ _ _ K1)) as K2. set (o2 := init_partition o1) in *.
-    pose proof (init_writer_ext o2 c (e_pre _ _ _ _ K2)) as K3. destruct (init_writer E o2 c) as [o3 c3].
+    pose proof (init_writer_ext o2 c (e_pre _ _ _ _ K2)) as K3. destruct (init_writer E o2 c) as [o3a c3a].
     unfold ExtP in K3. cbn [fst snd] in K3.
-    assert (K13 : Ext o c o3 c3) by (eapply Ext_trans; [exact K1|eapply Ext_trans; eassumption]).
+    pose proof (d48_step_ext o3a c3a (e_pre _ _ _ _ K3)) as K3b. destruct (d48_step o3a c3a) as [o3 c3].
+    cbn [fst snd] in K3b.
+    assert (K13 : Ext o c o3 c3)
+      by (eapply Ext_trans; [exact K1|eapply Ext_trans; [exact K2|eapply Ext_trans; eassumption]]).
     pose proof (push_from_cache_ext o3 c3 (e_pre _ _ _ _ K13)) as K4. destruct (push_from_cache E o3 c3) as [o4 c4].
     unfold ExtP in K4. cbn [fst snd] in K4.
     assert (K14 : Ext o c o4 c4) by (eapply Ext_trans; eassumption).
